@@ -297,6 +297,27 @@ fn c15_encode_fixed_size() {
     }
 }
 
+//@ C16 c16_cstring_blockwise_no_panic quick default,bounded BOUNDED 8 bytes, block 4: read_cstring_blockwise on arbitrary bytes (terminated or not) returns the text or an end-of-file error; it never panics and never reads past the buffer
+#[kani::proof]
+#[kani::unwind(12)]
+fn c16_cstring_blockwise_no_panic() {
+    let bytes: [u8; 8] = kani::any();
+    let mut r = std::io::Cursor::new(&bytes[..]);
+    match r.read_cstring_blockwise(4) {
+        Ok(e) => {
+            // whatever is returned is a prefix of the buffer without trailing NULs
+            assert!(e.0.len() <= 8);
+            core::mem::forget(e);
+        },
+        Err(err) => {
+            // only possible when no block ended with a NUL
+            assert!(bytes[3] != 0 && bytes[7] != 0, "end-of-file reported although a block was terminated");
+            core::mem::forget(err);
+        },
+    }
+    assert!(r.position() <= 8);
+}
+
 #[cfg(kani)]
 #[path = "/verif/.cache/playback/io.rs"]
 mod playback;
